@@ -21,6 +21,11 @@ def _analyze_box(cr):
     cr.bounded_check(run_contract_enum, "analyze-alias-box", c20b.analyze_contract, args,
                      f"{len(args)} cases: a three-node program with four names x every subset of names the program reads: consumers, "
                      "output aliases and output marks (contract evaluated on the real method)")
+    from contracts import c20
+    dargs = c20.describe_arg_sets()
+    cr.bounded_check(run_contract_enum, "entity-description-box", c20.describe, dargs,
+                     f"{len(dargs)} debug records (named / intermediate / unnamed producers x context x line x file spellings x operation x signal): the description carries the "
+                     "name (or the name it computes), the source line, the anchor mark and the signal (contract evaluated on the real format_entity_description)")
 
 
 def run(tier):
